@@ -192,6 +192,19 @@ func (r *ReadResult) Reported() bool { return r.CtorFail || r.Failed }
 // Next is never called again after it returned false. limit bounds the number
 // of rows accepted before the run counts as a run-away.
 func ExecReader(shape string, rs io.ReadSeeker, limit int, setAPI func(string)) *ReadResult {
+	return ExecReaderMode(shape, rs, limit, setAPI, "")
+}
+
+// ExecReaderMode is ExecReader with a client that uses the API differently:
+//
+//	""/"all"   Scan after every Next (the documented loop)
+//	"count"    Next without Scan (a caller that only counts rows)
+//	"alt"      Scan only every other row
+//	"abandon"  stop after half of the rows and never look at the reader again
+//
+// All of them are legal call histories of one instance; what they leave behind
+// in the process must not matter to other instances.
+func ExecReaderMode(shape string, rs io.ReadSeeker, limit int, setAPI func(string), mode string) *ReadResult {
 	sh := GetShape(shape)
 	res := &ReadResult{}
 	if setAPI == nil {
@@ -224,6 +237,7 @@ func ExecReader(shape string, rs io.ReadSeeker, limit int, setAPI func(string)) 
 	}
 	cur := "Next"
 	setAPI(cur)
+	n := 0
 	_, pan, capped = guard(func() error {
 		res.Rows = r.Rows()
 		for {
@@ -236,9 +250,17 @@ func ExecReader(shape string, rs io.ReadSeeker, limit int, setAPI func(string)) 
 				res.Runaway = true
 				return nil
 			}
+			n++
+			if mode == "count" || (mode == "alt" && n%2 == 0) {
+				res.Recs = append(res.Recs, nil) // row seen, not scanned
+				continue
+			}
 			cur = "Scan"
 			setAPI(cur)
 			res.Recs = append(res.Recs, r.Scan())
+			if mode == "abandon" && int64(n) >= (res.Rows+1)/2 {
+				return nil
+			}
 		}
 		if e := r.Error(); e != nil {
 			res.Failed = true
